@@ -121,3 +121,56 @@ Definition run_key (a : sx) : sx :=
       end
   | _ => sx_err "key"
   end.
+
+(* c18.multi: (dag root (op ...)) -> (result ...): a history of operations on
+   ONE prover; op = ('key bits vbits) | ('walk (path ...)) | ('drop (path ...));
+   result = proof BOC | 'err | 'panic | 'none (abandoned cursor) *)
+Definition op_of_sx (a : sx) : option op :=
+  match a with
+  | SL [SA k; SBits key; SN vbits] =>
+      if String.eqb k "key" then Some (OpKey key (N.to_nat vbits)) else None
+  | SL [SA k; SL paths] =>
+      if String.eqb k "walk" then Some (OpWalk (map path_of_sx paths))
+      else if String.eqb k "drop" then Some (OpDrop (map path_of_sx paths))
+      else None
+  | _ => None
+  end.
+
+Definition sx_of_result (r : option (res cell)) : sx :=
+  match r with
+  | None => SA "none"
+  | Some (Ok p) => ser_tree p
+  | Some (Err _) => SA "err"
+  | Some (Panic _) => SA "panic"
+  end.
+
+Definition run_multi (a : sx) : sx :=
+  match a with
+  | SL [SL dag; SN root; SL ops] =>
+      match nodes_of_sx dag with
+      | Some cells =>
+          let root := N.to_nat root in
+          match tree_at (S (List.length cells)) cells root with
+          | Some t =>
+              (* two positions hold the same cell iff they reach the same array index *)
+              let same (p q : list nat) : bool :=
+                match index_of cells root p, index_of cells root q with
+                | Some i, Some j => Nat.eqb i j
+                | _, _ => false
+                end in
+              SL (map (fun r => sx_of_result r)
+                      (prover_run sha256 same t
+                         (flat_map (fun o => match op_of_sx o with Some x => [x] | None => [] end) ops)))
+          | None => sx_err "tree"
+          end
+      | None => sx_err "dag"
+      end
+  | _ => sx_err "multi"
+  end.
+
+(* dispatcher of this file's kinds (private extraction; Dispatch.v has the same lines) *)
+Definition run (kind : string) (a : sx) : sx :=
+  if String.eqb kind "c18.proof" then run_proof a
+  else if String.eqb kind "c18.key" then run_key a
+  else if String.eqb kind "c18.multi" then run_multi a
+  else sx_err "kind".
